@@ -576,3 +576,46 @@ def rf169(run):
                           (i, nm[4:].lower(), 'from MIR_insn_op_mode' if got == SELF else 'as %s' % got, want if want != SELF else 'the table entry'),
                           line=sel[0]['l'])
     return n
+
+
+# ---------------------------------------------------------------------------------------------
+# RF184: every diagnostic of MIR_finish_func leaves the context without an open function
+# ---------------------------------------------------------------------------------------------
+
+def rf184(run):
+    rule = 'RF184'
+    run.rule(rule, 'MIR_finish_func: the error function may return by longjmp and the context is used again.  Every call of the error '
+                   'function (except the one that reports that there is no current function) is preceded — in its block or in a dominating '
+                   'block — by `curr_func = NULL`; otherwise the next, well-formed function is refused with "previous function is not '
+                   'finished"')
+    tu = run.tu('mir')
+    f = tu.func('MIR_finish_func')
+    run.functions_analysed.add(('mir', f.name))
+    cfg = f.cfg
+    idom = cfg.dominators()
+    resets = set()
+    for b, B in cfg.blocks.items():
+        for el in B.elems:
+            for y in F.walk(el):
+                if y['k'] == 'BinaryOperator' and y['op'] == '=' and F.src(F.strip(y['c'][0])).replace(' ', '').endswith('curr_func') and \
+                        (F.const_value(F.strip(y['c'][1])) == 0 or F.src(F.strip(y['c'][1])) in ('NULL', '((void*)0)', '((void *)0)')):
+                    resets.add(b)
+    n = 0
+    for b, B in cfg.blocks.items():
+        if not B.noreturn:
+            continue
+        calls = [y for el in B.elems for y in F.walk(el) if y['k'] == 'CallExpr' and 'MIR_get_error_func' in F.src(F.strip(y['c'][0]))]
+        if not calls:
+            continue
+        txt = ' '.join(y.get('s', '') for c in calls for y in F.walk(c) if y['k'] == 'StringLiteral')
+        if 'no current function' in txt.lower() or 'finish of non-existing' in txt.lower():
+            continue
+        ok = b in resets or any(cfg.dominates(r, b, idom) for r in resets)
+        n += 1
+        run.ob(rule, (calls[0]['l'],), ok, {'site': '%s:%d' % (f.relfile(), calls[0]['l']), 'message': txt[:60], 'curr_func reset first': ok})
+        if not ok:
+            run.violation(rule, f, 'diagnostic with the function left open', 'MIR_finish_func raises `%s…` (line %d) without resetting curr_func first: '
+                          'after a longjmp out of the error function every following MIR_new_func is refused' % (txt[:50], calls[0]['l']),
+                          line=calls[0]['l'])
+    run.control(rule, 'diagnostics of MIR_finish_func found', n >= 15)
+    return n
